@@ -240,7 +240,7 @@ def _lambda_site(n, holder, T, le):
         try:
             r = le.call_lambda(lam, [ctx], "cosem")
         except NotConstant as e:
-            if "None" in str(e):
+            if str(e) == "arithmetic on None" or (str(e).startswith("attribute ") and str(e).endswith(" of None")):
                 out.append(Escape("TypeError", f"{holder.src or holder.name or 'struct'}:{n.name or n.kind}", n.line, f"member `{m}` can be None (value not specified) and is used in an operation that needs a number"))
             continue
         if isinstance(r, Sym) and r[1] == "datetime.datetime":
